@@ -9,8 +9,9 @@ import H263V.Model.Yuv
 import H263V.Spec.Bt601
 import H263V.Spec.AnnexJ
 import H263V.Gen.Tables
+import H263V.Model.Show
 
-open H263V H263V.Util
+open H263V H263V.Util H263V.Show H263V.State
 
 def fmt4 (r : Int × Int × Int × Int) : String :=
   s!"{r.1} {r.2.1} {r.2.2.1} {r.2.2.2}"
@@ -19,6 +20,65 @@ def outK (o : Out (Int × Int × Int × Int)) : String :=
   match o with
   | .ok r => fmt4 r
   | _ => "PANIC"
+
+def decOpts (n : Nat) : DecOpts := { sorenson := n % 2 == 1, scalability := (n / 2) % 2 == 1 }
+
+def mkCur (bytes : Array Nat) : Cur := { bits := bytesToBits bytes.toList, pos := 0 }
+
+def runH (o : Nat) (prevHex hex : String) : String :=
+  match (if prevHex == "-" then some #[] else unhex prevHex), unhex hex with
+  | some pb, some b =>
+    let d := decOpts o
+    let prev : Option PicHdr :=
+      if prevHex == "-" then none else
+      match Header.decodePicture d none (mkCur pb) with
+      | .ok (some h, _) => some h
+      | _ => none
+    let c := mkCur b
+    match Header.decodePicture d prev c with
+    | .ok (some h, c') => s!"H {hdrS h} used={c'.pos}"
+    | .ok (none, c') => s!"H none used={c'.pos}"
+    | .err e => s!"H err:{e.name} used=0"
+    | .panic _ => "H PANIC"
+    | .fuel => "H FUEL"
+  | _, _ => "bad-op"
+
+def runP (full : Bool) (o : Nat) (ops : String) : String := Id.run do
+  let mut st := State.new (decOpts o)
+  let mut cur : Cur := { bits := [], pos := 0 }
+  let mut outs : Array String := #[]
+  for op in ops.splitOn ";" do
+    if op.isEmpty then continue
+    let mut res := ""
+    let mut decode := false
+    if op.startsWith "d:" then
+      match unhex (op.drop 2).toString with
+      | some b => cur := { cur with bits := cur.bits ++ bytesToBits b.toList }; decode := true
+      | none => res := "bad-op"
+    else if op.startsWith "a:" then
+      match unhex (op.drop 2).toString with
+      | some b => cur := { cur with bits := cur.bits ++ bytesToBits b.toList }; res := "app"
+      | none => res := "bad-op"
+    else if op == "n" then decode := true
+    else if op == "c" then st := st.cleanup; res := "cleanup"
+    else res := "bad-op"
+    if decode then
+      let tooLarge : Bool :=
+        match Header.decodePicture st.opts (st.getLast.map (·.hdr)) cur with
+        | .ok (some h, _) => (match h.format.bind SrcFmt.dims with | some (w, hh) => w * hh > 2097152 | none => false)
+        | _ => false
+      let r : Option (Out (State × Cur)) := match tooLarge with | true => none | false => some (decodeNextPicture st cur)
+      match r with
+      | none => res := "skip-large"
+      | some (.ok (st', cur')) => st := st'; cur := cur'; res := "ok"
+      | some (.err e) => res := s!"err:{e.name}"
+      | some (.panic _) => res := "PANIC"
+      | some .fuel => res := "FUEL"
+    if res == "PANIC" || res == "FUEL" then
+      outs := outs.push res
+      break
+    outs := outs.push s!"{res} last={picDigest st.getLast full} ref={picDigest st.getRef full} rem={cur.bits.length}"
+  return (if full then "PX " else "P ") ++ " | ".intercalate outs.toList
 
 def runLine (line : String) : String :=
   match line.trimAscii.toString.splitOn " " with
@@ -65,6 +125,10 @@ def runLine (line : String) : String :=
         return out
       s!"Y {hex px}"
     | _, _, _, _ => "bad-op"
+  | ["H", o, ph, h] => (match o.toNat? with | some o => runH o ph h | none => "bad-op")
+  | ["P", o, ops] => (match o.toNat? with | some o => runP false o ops | none => "bad-op")
+  | ["PX", o, ops] => (match o.toNat? with | some o => runP true o ops | none => "bad-op")
+  | ["P", o] => (match o.toNat? with | some o => runP false o "" | none => "bad-op")
   | ["J"] => "J " ++ joinSp (Gen.QUANT_TO_STRENGTH.toList.map toString)
   | ["JS"] => "J " ++ joinSp (Spec.AnnexJ.tableJ2.map toString)
   | _ => "bad-op"
